@@ -2,7 +2,7 @@
 """C04 rules: valence tables compile, definite assignment of the hydrogen count, sibling agreement of the rule predicate, totals."""
 import ast
 from .core import AnalysisError
-from .astutil import src, strip_doc, if_chain, conjuncts, alpha_normal
+from .astutil import src, strip_doc, if_chain, conjuncts, alpha_normal, reach_conditions, enclosing_map
 from .tables import ElementTable, compile_valence_rules
 
 MOL = 'chython.containers.molecule'
@@ -173,14 +173,7 @@ def _env_loop(f):
                 for c in ast.iter_child_nodes(p):
                     parents[c] = p
             acc = [n for n in ast.walk(loop) if isinstance(n, ast.AugAssign) and src(n.target).startswith('explicit_')]
-            guards = set()
-            child, p = acc[0], parents.get(acc[0])
-            while p is not None and p is not loop:
-                if isinstance(p, ast.If):
-                    if child in p.body:
-                        for c in conjuncts(p.test):
-                            guards.add(src(c))
-                child, p = p, parents.get(p)
+            guards = {src(c) for c in reach_conditions(acc[0], loop, parents)}  # nested test or guard clause alike
             return loop, guards, sorted(src(a) for a in acc)
     return None, None, None
 
@@ -412,8 +405,17 @@ def rule_tentative_removal_set(ck, repo, R):
                   and isinstance(a.value.slice, ast.Slice)}
         if not slices:
             continue
-        excl = [c for c in ast.walk(l) if isinstance(c, ast.Compare) and len(c.ops) == 1 and isinstance(c.ops[0], ast.NotIn) and isinstance(c.comparators[0], ast.Name)
-                and any(isinstance(p_, ast.For) and 'bonds[' in src(p_.iter) for p_ in ast.walk(l) if c in list(ast.walk(p_)) and p_ is not l)]
+        # the exclusion is whatever `m not in X` holds where the environment is accumulated (nested test or guard clause alike)
+        excl = []
+        parents = enclosing_map(f.node)
+        for inner in ast.walk(l):
+            if isinstance(inner, ast.For) and inner is not l and 'bonds[' in src(inner.iter):
+                for acc in ast.walk(inner):
+                    if isinstance(acc, ast.AugAssign):
+                        for c in reach_conditions(acc, inner, parents):
+                            if isinstance(c, ast.Compare) and len(c.ops) == 1 and isinstance(c.ops[0], ast.NotIn) and isinstance(c.comparators[0], ast.Name) \
+                                    and src(c) not in [src(e) for e in excl]:
+                                excl.append(c)
         upd = [c for c in ast.walk(l) if isinstance(c, ast.Call) and isinstance(c.func, ast.Attribute) and c.func.attr in ('update', 'extend') and len(c.args) == 1
                and isinstance(c.args[0], ast.Name) and 'remove' in src(c.func.value)]
         if not excl or not upd:
